@@ -16,7 +16,7 @@ def oracle(chk, good):
             for e, key in ((0, 'p1'), (1, 'p2')):
                 if g['gnd'][e]:
                     continue
-                pt = [float.fromhex(v) for v in g[key]]
+                pt = [float.fromhex(v) for v in g.get('s' + key, g[key])]       # the end of the conductor as it is segmented
                 # total of the pulse currents through this wire end, positive along the wire:
                 # pulses having a half on this object's end segment at this end point
                 tot = 0j; cnt = 0
